@@ -98,6 +98,8 @@ def _discharge_one(ob, budget, smoke_budget, ledger_entry, thorough):
         # the reference run knows how long this proof takes: 20x that (at least 15 s) is ample even with every core busy, and a proof that does not
         # come back within it on a changed VC is not going to (keeps a check on a broken tree to minutes)
         b = min(b, max(15.0, 20 * ledger_entry.get('time', 0)))
+    if ledger_entry is None and not thorough:
+        b = min(b, 30.0)        # an obligation the reference tree does not have: one short attempt per solver (the ledger is built with the thorough treatment)
     fast = degraded()
     if fast:
         b = min(b, max(8.0, 3 * (ledger_entry or {}).get('time', 0)))
@@ -129,7 +131,7 @@ def _discharge_one(ob, budget, smoke_budget, ledger_entry, thorough):
         with _state_lock: _state['undecided_changed'] += 1           # both solvers gave up on the full VC of a changed obligation
         res['counted'] = True
     fast = fast or degraded()
-    if verdict == 'unknown' and ob.get('focus_path') and not fast and (thorough or not proved_before):
+    if verdict == 'unknown' and ob.get('focus_path') and not fast and thorough:
         # sound retry with a SUBSET of the premises (quantifier-free path facts, definitions, hint assertions)
         for sname, variant in (('z3', 'focus'), ('z3', 'nohint'), ('cvc5', 'focus'), ('cvc5', 'nohint')):
             v, dt, extra = (run_z3 if sname == 'z3' else run_cvc5)(ob['focus_path'].replace('.focus.', f'.{variant}.'), b)
